@@ -572,7 +572,11 @@ func (r *c14Run) randomOp(g *c14Gen, h int64) {
 		if id < 0 {
 			return
 		}
-		r.doFund(id, c14Pick(rnd, users), c14Amts[rnd.Intn(len(c14Amts))])
+		famt := c14Amts[rnd.Intn(len(c14Amts))]
+		if rnd.Intn(40) == 0 {
+			famt = "-" + famt // Validate does not look at the sign
+		}
+		r.doFund(id, c14Pick(rnd, users), famt)
 	case k < 62:
 		id := anyID(func(p *c14PObs) bool { return p.Stores == 1 && p.Status == 1 })
 		if id < 0 {
@@ -633,6 +637,9 @@ func (r *c14Run) randomOp(g *c14Gen, h int64) {
 					amount = x.Div(x, big.NewInt(2)).String()
 				}
 			}
+		}
+		if rnd.Intn(40) == 0 {
+			amount = "-3"
 		}
 		ben := funder
 		if rnd.Intn(4) == 0 {
@@ -751,6 +758,29 @@ func c14ScriptE11() *c14Case {
 	}
 	r.beginBlock()
 	r.doWithdraw(0, 0, "2000000000", 0)
+	r.endBlock()
+	return r.finish()
+}
+
+// probe: a negative contribution (Validate checks the currency of a fund / withdraw amount, not its sign)
+func c14ScriptNegative() *c14Case {
+	r := c14NewRun("negfund")
+	h := r.beginBlock()
+	r.doCreate(2, 1, "5000000000", h+4, h+4+c14VDelta[2], "10000000000", int64(c14Pass[2]), "", true)
+	r.endBlock()
+	r.beginBlock()
+	u := r.userKey(2)
+	tx := txPropFundRaw(u, r.pids[0], oltAmt("-5000000000"), r.memo())
+	r.c.Notes["negfund_checktx_code"] = r.rep.CheckTx(tx).Code
+	r.doFund(0, 2, "-5000000000")
+	r.c.Notes["negfund_deliver_ok"] = r.c.Ops[len(r.c.Ops)-1].Ok
+	r.endBlock()
+	r.beginBlock()
+	r.doCancel(0, 1)
+	r.endBlock()
+	r.beginBlock()
+	r.doWithdraw(0, 1, "5000000000", 1)
+	r.doWithdraw(0, 2, "-1", 2)
 	r.endBlock()
 	return r.finish()
 }
@@ -910,7 +940,7 @@ func c14Main(args []string) int {
 	fs.Parse(args)
 
 	cases := []*c14Case{}
-	builders := []func() *c14Case{c14ScriptE11, c14ScriptLife}
+	builders := []func() *c14Case{c14ScriptE11, c14ScriptLife, c14ScriptNegative}
 	for i := 0; i < *n; i++ {
 		ci := i
 		builders = append(builders, func() *c14Case { return c14Random(*seed, ci, *nb) })
